@@ -728,6 +728,8 @@ def finish(args, mod, results, dead, wall, ncases, P):
         try:
             import base64
             import gzip
+            if rc == 1 and confirmed.index(v) >= 3:
+                continue                    # (the first three are enough for a log)
             with open(v["replay"], "rb") as fh:
                 print("REPLAY-INLINE " + base64.b64encode(gzip.compress(fh.read())).decode())
         except OSError:
